@@ -364,7 +364,7 @@ func c06CallProgram(group string, P, R []c06K, idx int) (oracle.Prog, bool) {
 			w.f("for _, f := range mvs {")
 			c.lcall("range-mv", "f")
 			w.f("}")
-				_ = N
+			_ = N
 		}
 	case "forward":
 		if len(R) == 0 {
@@ -692,8 +692,8 @@ func c06RecursionPrograms(c *core.Ctx) []oracle.Prog {
 				case "linear":
 					// locals of both slot classes set before the recursive call and verified after it
 					d.f("func R_%s(n int, p %s) int {\n\ta := n*3 + 1\n\tv := %s\n\tif n <= 0 {\n\t\treturn %s\n\t}\n\tr := R_%s(n-1, v)\n\tif a != n*3+1 {\n\t\tS(\"corrupt\")\n\t\tO(n, a, v)\n\t}\n\treturn r + a + %s + %s\n}",
-					id, kt, mk("n"), k.dig("p"), id, k.dig("v"), k.dig("p"))
-				w.f("O(R_%s(%d, %s))\nO(R_%s(%d, %s))", id, depth, mk("1"), id, depth, mk("2"))
+						id, kt, mk("n"), k.dig("p"), id, k.dig("v"), k.dig("p"))
+					w.f("O(R_%s(%d, %s))\nO(R_%s(%d, %s))", id, depth, mk("1"), id, depth, mk("2"))
 				case "closures":
 					// every level appends a closure capturing its own locals; all are invoked after unwinding
 					d.f("var fs_%s []func() %s", id, kt)
@@ -712,7 +712,7 @@ func c06RecursionPrograms(c *core.Ctx) []oracle.Prog {
 					w.f("O(rec(%d, %s))\nO(rec(%d, %s))", depth, mk("1"), depth, mk("3"))
 				case "method":
 					d.f("func (t *T_%s) R(n int, p %s) int {\n\ta := n*2 + t.A\n\tv := p\n\tt.A++\n\tif n <= 0 {\n\t\treturn %s\n\t}\n\tr := t.R(n-1, %s)\n\treturn r + a + %s\n}", id, kt, k.dig("v"), mk("n"), k.dig("v"))
-				w.f("t := &T_%s{1, \"m\"}\nO(t.R(%d, %s))\nmv := t.R\nO(mv(%d, %s))\nO(t.A)", id, depth, mk("1"), depth, mk("2"))
+					w.f("t := &T_%s{1, \"m\"}\nO(t.R(%d, %s))\nmv := t.R\nO(mv(%d, %s))\nO(t.A)", id, depth, mk("1"), depth, mk("2"))
 				case "two-calls":
 					// two recursive calls per level at the bottom levels only (bounded work), locals live across both
 					d.f("func R_%s(n int, p %s) int {\n\ta := n + 11\n\tv := p\n\tif n <= 0 {\n\t\treturn 1\n\t}\n\tr := R_%s(n-1, %s)\n\tif n <= 3 {\n\t\tr += R_%s(n-1, v)\n\t}\n\tif a != n+11 {\n\t\tS(\"corrupt\")\n\t}\n\treturn r + %s\n}", id, kt, id, mk("n"), id, k.dig("v"))
